@@ -178,7 +178,10 @@ pub fn judge(x: &Vec<u8>, st: &mut Stats) -> Verdict {
         }),
     )?;
     // d. decoded items, when the section is well-formed
-    if wf && fam != 0 {
+    // ... also when the PARSER calls a section well-formed that the reference does not (every item it yields is Ok): what it
+    // decoded must still re-encode to the header it came from
+    let wf_impl = fam != 0 && !section.is_empty() && matches!(guard(|| h.tlvs().take(30_000).all(|t| t.is_ok())), Ok(true));
+    if (wf || wf_impl) && fam != 0 {
         let items: Vec<TypeLengthValue> = match guard(|| h.tlvs().filter_map(|t| t.ok()).collect::<Vec<_>>()) {
             Ok(i) => i,
             Err(_) => return Ok(()),
